@@ -202,6 +202,6 @@ func TestC05(t *testing.T) {
 			})
 			return c
 		}
-		hh.Sub(h, mode, h.N(30000, 150000), gen, propC05(reps))
+		hh.Sub(h, mode, h.N(30000, 35000), gen, propC05(reps))
 	}
 }
